@@ -39,7 +39,8 @@ func (Prop) SelfTest() error {
 }
 
 func (Prop) Rule() string {
-	return "E2 (full products, a fresh mode object per call): ECB/CBC/BC/OFBNLF 0..40 blocks; CFB/OFB/CTR every byte length 0..600 (thorough 0..2100); XTS IEEE and GB, enc and dec, every byte length 16..527 (thorough 16..2100), " +
+	return "Constructor arguments: for 11 mode constructors x 3 code paths the key / IV / tweak / hash-key slices are overwritten by the caller after construction (and must not have been modified by it); two calls on the object must still equal the reference for the original values. " +
+		"E2 (full products, a fresh mode object per call): ECB/CBC/BC/OFBNLF 0..40 blocks; CFB/OFB/CTR every byte length 0..600 (thorough 0..2100); XTS IEEE and GB, enc and dec, every byte length 16..527 (thorough 16..2100), " +
 		"one case per length up to 143 and per 16-length window above so that a worker crash is attributed to its length; HCTR every length 16..300 (thorough 16..600). " +
 		"Each x {disjoint, dst==src, dst 32 bytes longer than src} with src and dst ending at a PROT_NONE page and sentinel bytes in front " +
 		"x {key set A with IV/tweak 0^128 and 1^128, key set B with a pattern IV}; CTR additionally with the 72 counters 2^k-j (k in 32,64,96,128; j=0..17) " +
@@ -64,6 +65,7 @@ func (Prop) Assumptions() []string {
 }
 
 func (Prop) Run(c *engine.Ctx) {
+	runCtorAliasing(c)
 	quick := c.Quick()
 	streamMax, xtsMax, hctrMax, depth := 600, 527, 300, 3
 	if !quick {
